@@ -1,5 +1,6 @@
 import Rbp.Model.Xor
 import Rbp.Model.Run
+import Rbp.Proofs.Record
 /-!
 # C11 — XOR-obfuscated block files yield the same result as plaintext ones
 -/
@@ -23,6 +24,13 @@ theorem run_unxor_plain (key plain : Bytes) (p : Nat) :
     Run.unxor (some key) p ((xorAt key 0 plain).drop p) = plain.drop p := by
   simp only [Run.unxor]
   rw [xorAt_drop, Nat.zero_add, xor_invol]
+
+/-- whole-program consequence at the point where blocks are read: for any key and any absolute position, parsing the
+    de-obfuscated bytes of an obfuscated file gives exactly what parsing the plaintext gives — same block, same size prefix,
+    same error if the plaintext is damaged -/
+theorem read_xor_eq_plain (coin : Run.Coin) (k : Bytes) (p : Nat) (plain : Bytes) :
+    Run.parseAt coin (Run.unxor (some k) p (xorAt k p plain)) = Run.parseAt coin plain :=
+  Run.parseAt_xor coin k p plain
 
 /-- non-vacuity: a 3-byte key over 5 bytes read after a seek to offset 2 (not a multiple of the key length) -/
 example : (run ⟨⟨xorAt [1, 2, 3] 0 [10, 20, 30, 40, 50], 0⟩, [1, 2, 3], 0⟩ [.seek 2, .read 2 2]).2 = [[], [30, 40]] := by decide
